@@ -21,12 +21,17 @@ theorem C06_dates_present_backward (env : Env) (f0 : Uid → Fields) (res0 : Lis
   have _ := hf
   backwardCalc_dates env f0 res0 o h
 
-/-- hypotheses of clock independence for one clock: every reading lies on a day before the project start day and
-    before the day of every user-fixed start that has no fixed end; user-fixed ends are not in the future -/
+/-- hypotheses of clock independence for one clock: no reading is later than the project start, every reading lies
+    on a day before the day of every user-fixed start that has no fixed end, user-fixed ends are not in the future, and
+    - when some working leaf with open dates has no work left, so that its end is the later of its start and the clock
+    (`__shift_by_resource_usage_and_calendar` returns the date it is given) while its start is the *midnight*-based
+    date of the availability search - no reading is later than the midnight of the project start day -/
 def ClockHyp (env : Env) (f0 : Uid → Fields) (clk : Nat → Time) : Prop :=
-  (∀ k, dayOf (clk k) < dayOf env.bound) ∧
+  (∀ k, clk k ≤ env.bound) ∧
   (∀ t ∈ memberList env, ∀ s, (f0 t).start = some s → (f0 t).end_ = none → ∀ k, dayOf (clk k) < dayOf s) ∧
-  (∀ t ∈ memberList env, ∀ e, (f0 t).end_ = some e → e ≤ clk 0)
+  (∀ t ∈ memberList env, ∀ e, (f0 t).end_ = some e → e ≤ clk 0) ∧
+  (∀ t ∈ memberList env, works env f0 t = true → (f0 t).start = none → remaining env f0 t = 0 →
+    ∀ k, clk k ≤ ((dayOf env.bound : Int) : Rat))
 
 /-- under those hypotheses the forward result does not depend on the clock at all -/
 theorem C06_clock_partial (env : Env) (f0 : Uid → Fields) (res0 : List (Option Nat × Cal)) (clk clk' : Nat → Time)
@@ -35,8 +40,9 @@ theorem C06_clock_partial (env : Env) (f0 : Uid → Fields) (res0 : List (Option
     (forwardCalc { env with clock := clk' } f0 res0).map (fun o => (o.rows, o.res, (memberList env).map o.f)) :=
   congrArg _ (forwardCalc_clock env f0 res0 clk clk' hf h1 h2)
 
-/-- the full statement fails: with the clock on the project start day the result moves with the clock
-    (findings/KF-S6-C06.json: two clocks, both not later than the project start, different results) -/
+/-- the full statement fails (findings/KF-S6-C06.json: two clocks, both not later than the project start, different
+    results).  After the repair of the end clamp the witness is of the zero-work kind: its only task has nothing left
+    to do, starts at the midnight of the project start day and ends at the later of that midnight and the clock -/
 theorem C06_clock_full_fails :
     let env := Witness.kfS6C06Env
     let clk' : Nat → Time := fun _ => env.bound
@@ -47,6 +53,30 @@ theorem C06_clock_full_fails :
   · show ((315687 : Rat) / 16) ≤ ((315721 : Rat) / 16)
     decide +kernel
   · apply map_ne_of_proj _ _ _ (fun l => l.map (fun x => x.end_))
+    decide +kernel
+
+/-- the remaining kind of clock dependence: a member leaf with a user-fixed start (Monday 2024-01-01) and no fixed end,
+    project start Wednesday 2024-01-03, two clocks both not later than the project start, one on the day before the
+    fixed start's day and one on the day after it: the work is booked from the clock on, so the usage rows differ -/
+theorem C06_clock_fixed_start_fails :
+    let env : Env :=
+      { n := 1,
+        info := fun u => match u with
+          | 0 => { tid := 1, parent := none, children := [], preds := [], succs := [], member := true,
+                   resource := some 0, milestone := false, minStart := none }
+          | _ => default,
+        roots := [0], balance := true, defaultEst := (8 : Rat),
+        clock := fun _ => ((39445 : Rat) / 2), bound := (19725 : Rat) }
+    let f0 : Uid → Fields := fun _ => { start := some (19723 : Rat), end_ := none, est := none, spent := none }
+    let clk' : Nat → Time := fun _ => ((39449 : Rat) / 2)
+    (∀ k, env.clock k ≤ env.bound) ∧ (∀ k, clk' k ≤ env.bound) ∧
+    (forwardCalc env f0 []).map (fun o => o.rows) ≠ (forwardCalc { env with clock := clk' } f0 []).map (fun o => o.rows) := by
+  refine ⟨fun k => ?_, fun k => ?_, ?_⟩
+  · show ((39445 : Rat) / 2) ≤ (19725 : Rat)
+    decide +kernel
+  · show ((39449 : Rat) / 2) ≤ (19725 : Rat)
+    decide +kernel
+  · apply map_ne_of_proj _ _ _ (fun l => l.map (fun x => x.day))
     decide +kernel
 
 end Pj
